@@ -38,7 +38,7 @@ class C07(Prop):
             t = r
             if all(len(x) == len(t[0]) for x in t[1:]):
                 k = rng.choice([t[0][0], 0, (t[0][0], t[0][-1])])
-                v = rng.choice([None, t[0][-1], (t[0][-1], t[0][0])])
+                v = rng.choice([None, t[0][-1], (t[0][-1], t[0][0]), 0, len(t[0]) - 1, (0,)])
                 yield Case('lookup', (False, False, k, v, t))
                 yield Case('lookup', (True, rng.random() < 0.5, k, v, t))
                 # the whole family (lookup / dictlookup / recordlookup and their *one forms), also into a mapping that hands
@@ -53,6 +53,11 @@ class C07(Prop):
                 yield Case('lookup', (True, strict, 'id', 'v', tl))
             yield Case('lookup', (False, False, 'id', 'v', tl))
             yield Case('lookup_family', ('id', tl))
+        # the value selected by position, position 0 included
+        tv = (('id', 'v'), ('a', 1), ('b', 2), ('a', 3))
+        for val in (0, 1, (0,), (1, 0), 'id'):
+            yield Case('lookup', (False, False, 'v', val, tv))
+            yield Case('lookup', (True, False, 'v', val, tv))
 
     def expand(self, case):
         if case.op == 'lookup_family':
